@@ -1,11 +1,11 @@
 SPECIFICATION Spec
 CONSTANTS P = 2
           L = 3
-          MaxClock = 12
+          MaxClock = 10
           MaxPeerKa = 2
-          MaxReconnects = 1
-          MaxFaults = 0
-          MaxBlocks = 1
+          MaxReconnects = 0
+          MaxFaults = 1
+          MaxBlocks = 0
 INVARIANT TypeOK
 INVARIANT NoFalseTimeout
 INVARIANT TimeoutDetected
